@@ -26,14 +26,17 @@ RULE = ("MafWriter.from_fd(handle that survives close, header, Silent, assume_so
         "MafHeader.from_reader(reader over a header-only text, ...), with the contig list passed as contigs=[...] or as "
         "fasta_index=<a .fai file written for the case>, and the sort-order object itself may be built from a .fai; records are handed over with `+=` or "
         "writer.write(); the destination is a caller's handle (from_fd) or, for a share, a plain or .gz path under the "
-        "check's work directory (from_path); writer.header() must be the header given; non-trivial = sorting on, at least two records with distinct keys; "
+        "check's work directory (from_path); writer.header() must be the header given; a share of the scheme-less cases is wide (255-300 filler columns "
+        "before the key columns); barcodes include digit-only texts, which stay text under the typed scheme; non-trivial = sorting on, at least two records with distinct keys; "
         "distinct by hash of the case")
 ASSUMPTIONS = [
     "iterating the MafSorter returns a permutation of the added records sorted by the key function it was built with, "
     "and decoding re-renders identically (C07 with C04; the extracted model uses a stable insertion sort in its place)",
     "records handed to the writer validate (Silent stringency here; what a Strict writer refuses is C06)",
     "the header validates or the stringency is not Strict; printing and re-reading header lines is C13",
-    "values reaching a key are None, int or str; position text is ASCII; integer-like typed chromosome names are canonical",
+    "values reaching a key are None, int or str; position text is ASCII; integer-like typed chromosome names are canonical "
+    "(a float position such as 5.7 set through the API on a scheme-less record is keyed as 5 by the writer and, once written "
+    "as text, as missing by the reader: outside the modelled values)",
     "the writer builds its MafSorter with the default max_objects_in_ram=10000; to reach the merge of several spill "
     "runs with small inputs the harness lowers the capacity by wrapping the constructor maflib.writer.MafSorter "
     "(functools.partial(MafSorter, max_objects_in_ram=k), k in 1..3) for the cases that carry \"cap\"; those cases "
@@ -72,6 +75,7 @@ def _gen_one(rng):
     rows = []
     other_first = (not typed) and rng.random() < 0.35      # then a key column is the last one
     empty_other = (not typed) and rng.random() < 0.25      # lines ending in an empty column
+    pad = rng.choice([255, 256, 257, 258, 300]) if ((not typed) and rng.random() < 0.08) else 0   # wide records
     for f in fields:
         if stream == "valid" and f["chrom"] is None:
             f = dict(f, chrom=chroms[0])
@@ -88,7 +92,7 @@ def _gen_one(rng):
         else:
             other = ["Other", "" if empty_other else "x%d" % len(rows)]
             cols = [[nm, ("" if f[k] is None else f[k])] for nm, k in names]
-            rows.append({"kind": "untyped", "cols": ([other] + cols) if other_first else (cols + [other])})
+            rows.append({"kind": "untyped", "cols": C.pad_cols(pad) + (([other] + cols) if other_first else (cols + [other]))})
     if stream == "boundary" and n >= 2:
         r = rng.random()
         if r < 0.3:
@@ -118,7 +122,8 @@ def _gen_one(rng):
             lines.insert(rng.randrange(len(lines) + 1), "#center somewhere")
         hdr = {"lines": lines}
         declared = [ORDER_NAMES.get(order, order), contigs or None]
-    colnames = C.GDC_NAMES if typed else ((["Other"] + [nm for nm, _ in names]) if other_first else ([nm for nm, _ in names] + ["Other"]))
+    colnames = C.GDC_NAMES if typed else [nm for nm, _ in C.pad_cols(pad)] + (
+        (["Other"] + [nm for nm, _ in names]) if other_first else ([nm for nm, _ in names] + ["Other"]))
     reuse = edit_first = None
     if not typed and rows:
         r = rng.random()
@@ -156,6 +161,15 @@ def _ucase(lines, declared, rows, sort=True, cap=None):
 
 def corpus():
     return [
+        # wide scheme-less records keep all their columns through the sorter
+        {"stream": "corpus", "typed": False, "sort": True, "cap": None, "hdr": {"lines": ["#sort.order Coordinate"]},
+         "declared": ["Coordinate", None], "names": [n for n, _ in C.pad_cols(258)] + [C.N_CHROM, C.N_START, C.N_END],
+         "rows": [{"kind": "untyped", "cols": C.pad_cols(258) + [[C.N_CHROM, "chr1"], [C.N_START, s], [C.N_END, s]]} for s in ("9", "10", "2")]},
+        # digit-only barcodes under the typed scheme are text
+        {"stream": "corpus", "typed": True, "sort": True, "cap": None,
+         "hdr": {"lines": ["#version gdc-1.0.0", "#sort.order BarcodesAndCoordinate"]},
+         "declared": ["BarcodesAndCoordinate", None], "names": C.GDC_NAMES,
+         "rows": [{"kind": "typed", "f": dict(tumor=t, chrom="1", start="5", end="5")} for t in ("9", "T1", "10", "007", "7")]},
         # write() instead of +=, a path / a .gz path instead of a handle
         dict(_ucase(["#sort.order Coordinate", "#contigs chr1,chr2,chr10"], ["Coordinate", ["chr1", "chr2", "chr10"]],
                     [["chr10", "1", "2"], ["chr2", "1", "1"], ["chr1", "5", "6"]]), call="write", dest="gz"),
